@@ -12,6 +12,7 @@ hard harness error.
 """
 import sys
 import threading
+import time
 
 from mc.core import HarnessError
 
@@ -131,20 +132,21 @@ def preemptions(ex, upto):
   return k
 
 
-def explore(make_bodies, check, bound, trace_files=(), max_executions=None):
+def explore(make_bodies, check, bound, trace_files=(), max_executions=None, time_budget_s=None):
   """DFS over schedules with at most `bound` preemptions. check(ex) inspects one complete execution.
 
   Returns dict(executions, max_points, capped).
   """
   stats = {'executions': 0, 'max_points': 0, 'capped': False, 'bound': bound}
   stack = [[]]
+  t0 = time.time()
   while stack:
     prefix = stack.pop()
     ex = Scheduler(make_bodies(), trace_files, prefix).run()
     stats['executions'] += 1
     stats['max_points'] = max(stats['max_points'], len(ex.points))
     check(ex)
-    if max_executions and stats['executions'] >= max_executions:
+    if (max_executions and stats['executions'] >= max_executions) or (time_budget_s and time.time() - t0 > time_budget_s):
       stats['capped'] = True
       break
     for i in range(len(ex.points) - 1, len(prefix) - 1, -1):
